@@ -366,8 +366,14 @@ fn gather_features(
             gather_features_recursively(feature, &mut features, builtin_features, opt, git_config);
         }
     } else {
+        // No git config at all (--no-gitconfig): custom features cannot exist, but a builtin
+        // feature still brings in the builtin features it contains.
         for feature in input_features {
-            features.push_front(feature.to_string());
+            if builtin_features.contains_key(feature) {
+                gather_builtin_features_recursively(feature, &mut features, builtin_features, opt);
+            } else {
+                features.push_front(feature.to_string());
+            }
         }
     }
 
